@@ -18,10 +18,12 @@ ALPHA_B = ["{", "}", "\"", ",", "=", "\n", "\\", " ", "@a", "@string", "@preambl
 
 RULE = ("every token sequence (smallest first) over alphabet A = { } \" , = LF backslash-LF CRLF @a @comment @string x "
         "and over alphabet B = { } \" , = LF backslash space @a @string @preamble x (two blocks on a line arise as "
-        "'@a{}@a{'); plus random large documents assembled from valid blocks, broken blocks, free text, blank lines, "
+        "'@a{}@a{}'); plus random large documents assembled from valid blocks, broken blocks, free text, blank lines, "
         "lines ending in a backslash, CRLF endings and blocks sharing a line (runs of mark-free lines kept short so the "
         "C01 recursion defect is not what is measured).  Checked on parse_string(text, parse_stack=[]) and, for the "
-        "random documents, also on Splitter(text).split().  distinct = distinct text; non-trivial = the text has a "
+        "random documents, also on Splitter(text).split().  A violation is labelled F3 only when a failed block that is not a "
+        "duplicate-key/-field wrapper precedes the point where the tiling breaks, F2 only when the tiling holds and the "
+        "reported line equals the true line minus the number of backslash-LF pairs before it.  distinct = distinct text; non-trivial = the text has a "
         "non-whitespace character (at least one block must come out)")
 BOUND = {"quick": "all sequences of <= 6 tokens over A (3,257,437) and <= 5 tokens over B (271,453); 200 random documents of 20..300 pieces (4 modes: valid only / + backslash-newline / + broken blocks / all)",
          "thorough": "all sequences of <= 7 tokens over A (39,089,245) and <= 6 tokens over B (3,257,437); 2000 random documents of 20..1500 pieces (same 4 modes)"}
